@@ -325,3 +325,19 @@ s("C13", "confirmed-expiry-early-return", ELF, "        for i, count in enumerat
 b(["C13"], "majority-doubled", ELF, "        if num_drift > simple_majority_threshold:", "        if 2 * num_drift > len(detectors):")
 b(["C13"], "minimum-flip", ELF, "            if num_approvals >= self.approvals_needed:\n                return \"drift\"\n        return None", "            if self.approvals_needed <= num_approvals:\n                return \"drift\"\n        return None")
 b(["C13"], "confirmed-verdict-reordered-sum", ELF, "        elif num_warning + num_drift >= self.sensitivity:", "        elif num_drift + num_warning >= self.sensitivity:")
+
+# ---------------------------------------------------------------- C14
+s("C14", "ddm-count-before-validate", CO + "ddm.py", "        _, y_true, y_pred = super()._validate_input(None, y_true, y_pred)\n        super().update(None, y_true, y_pred)\n        # the arrays should have a single element after validation.\n        y_true, y_pred = y_true[0], y_pred[0]\n        classifier_result = int(y_pred != y_true)", "        super().update(None, y_true, y_pred)\n        _, y_true, y_pred = super()._validate_input(None, y_true, y_pred)\n        # the arrays should have a single element after validation.\n        y_true, y_pred = y_true[0], y_pred[0]\n        classifier_result = int(y_pred != y_true)", "ORD")
+s("C14", "cusum-no-univariate-guard", CD + "cusum.py", "        if len(X.shape) > 1 and X.shape[1] != 1:\n            raise ValueError(\"CUSUM should only be used to monitor 1 variable.\")\n", "", "GRD")
+s("C14", "stream-y-no-shape-test", DET, "        ary = np.array(y).ravel()\n        if ary.shape != (1,):\n            raise ValueError(\n                \"Input for streaming detectors should contain only one observation.\"\n            )\n        return ary", "        ary = np.array(y).ravel()\n        return ary", "GRD")
+s("C14", "typeerror-instead", DET, "                    raise ValueError(\n                        \"Column-dimension of new data must match prior data.\"\n                    )\n\n        if ary.shape[0] != 1:", "                    raise TypeError(\n                        \"Column-dimension of new data must match prior data.\"\n                    )\n\n        if ary.shape[0] != 1:", "EXC-type")
+s("C14", "array-width-not-compared", DET, "            elif self._input_col_dim is not None:\n                if ary.shape[1] != self._input_col_dim:\n                    raise ValueError(\n                        \"Column-dimension of new data must match prior data.\"\n                    )\n\n        if ary.shape[0] != 1:", "\n        if ary.shape[0] != 1:", ["GRD", "WR-once"])
+s("C14", "raw-x-used-later", DD + "nndvi.py", "        X, _, _ = super()._validate_input(X, None, None)\n\n        super().update(X=X, y_true=None, y_pred=None)\n        test_batch = np.array(X)", "        raw = X\n        X, _, _ = super()._validate_input(X, None, None)\n\n        super().update(X=X, y_true=None, y_pred=None)\n        test_batch = np.array(raw)", "TNT-validate-first")
+s("C14", "columns-as-set", DET, "                if not X.columns.equals(self._input_cols):\n                    raise ValueError(\n                        \"Columns of new data must match with columns of prior data.\"\n                    )\n            ary = X.values.copy()\n        else:\n            ary = copy.copy(X)\n            ary = np.array(ary)\n            if len(ary.shape) <= 1:\n                # only one", "                if set(X.columns) != set(self._input_cols):\n                    raise ValueError(\n                        \"Columns of new data must match with columns of prior data.\"\n                    )\n            ary = X.values.copy()\n        else:\n            ary = copy.copy(X)\n            ary = np.array(ary)\n            if len(ary.shape) <= 1:\n                # only one", "GRD")
+s("C14", "reset-forgets-columns", DET, "        self.samples_since_reset = 0\n        self.drift_state = None\n", "        self.samples_since_reset = 0\n        self.drift_state = None\n        self._input_cols = None\n        self._input_col_dim = None\n", "WR")
+s("C14", "batch-one-row-ok", DET, "        if ary.shape[0] <= 1:\n            raise ValueError(\n                \"Input for batch detectors should contain more than one observation.\"\n            )", "        if ary.shape[0] < 1:\n            raise ValueError(\n                \"Input for batch detectors should contain more than one observation.\"\n            )", "GRD")
+s("C14", "kdq-store-before-validate", DD + "kdq_tree.py", "        X, _, _ = super()._validate_input(X, None, None)\n        StreamingDetector.update(self, X, None, None)\n        ary = copy.deepcopy(X)", "        self._last_input = X\n        X, _, _ = super()._validate_input(X, None, None)\n        StreamingDetector.update(self, X, None, None)\n        ary = copy.deepcopy(X)", ["TNT-validate-first", "EXC-commit"])
+s("C14", "revert-fix-kf4", DD + "cdbd.py", "        if len(np.shape(X)) > 1 and np.shape(X)[1] != 1:\n            raise ValueError(\"CDBD should only be used to monitor 1 variable.\")\n        super().update(X, None, None)", "        if len(X.shape) > 1 and X.shape[1] != 1:\n            raise ValueError(\"CDBD should only be used to monitor 1 variable.\")\n        super().update(X, None, None)", "TNT-validate-first")
+s("C14", "batch-y-column-test-dropped", DET, "        if ary.shape[1] != 1:\n            raise ValueError(\"y input for detectors should contain only one column.\")\n", "", "GRD")
+b(["C14", "C15"], "validate-x-temp", DET, "            ary = copy.copy(X)\n            ary = np.array(ary)\n            if len(ary.shape) <= 1:\n                # only one", "            ary = np.array(copy.copy(X))\n            if len(ary.shape) <= 1:\n                # only one")
+b(["C14"], "rowcount-flip", DET, "        if ary.shape[0] != 1:\n            raise ValueError(\n                \"Input for streaming", "        if 1 != ary.shape[0]:\n            raise ValueError(\n                \"Input for streaming")
